@@ -17,6 +17,7 @@
 #endif
 
 #include "detail/math.hpp"
+#include "detail/verif_hooks.hpp"
 #include "diff.hpp"
 #include "optim/tr_solver.hpp"
 #include "optim/tr_strategy.hpp"
@@ -135,8 +136,15 @@ SolveResult minimize(auto && f, auto && x, auto && cb, const MinimizeOptions & o
 #endif
     }
 
+#ifdef SMOOTH_VERIF
+    bool verif_stepped = false;
+#endif
+
     // step
     if (r_n == 0 || pred_red <= 0 || take_step) {
+#ifdef SMOOTH_VERIF
+      verif_stepped = true;
+#endif
       x = xp;
 
       // execute callback on updated value
@@ -149,6 +157,7 @@ SolveResult minimize(auto && f, auto && x, auto && cb, const MinimizeOptions & o
         status = SolveResult::Status::Ptol;
       }
     }
+    SMOOTH_VERIF_MINIMIZE_ITER(iter, r_n, pred_red, actu_red, rho, Delta, take_step, verif_stepped, status.has_value());
   }
 
   if (opts.verbose) {
